@@ -5,9 +5,11 @@ cd $WT || exit 2
 OUT=$WT/_seeded/confirm.txt
 : > $OUT
 PYTHONPATH=$WT /venv/bin/python _seeded/demo.py > _seeded/demo_with.log 2>&1; echo "demo_with_change_exit=$?" >> $OUT
-git stash -q
+# no git stash here: the stash list is shared by all worktrees of one repository
+git apply -R _seeded/patch.diff || exit 2
 PYTHONPATH=$WT /venv/bin/python _seeded/demo.py > _seeded/demo_without.log 2>&1; echo "demo_without_change_exit=$?" >> $OUT
-git stash pop -q
+git apply _seeded/patch.diff || exit 2
+git diff -- dask_expr | diff -q - _seeded/patch.diff > /dev/null || { echo "worktree does not hold the patch" >> $OUT; exit 2; }
 /venv/bin/python -m pytest -q -p no:cacheprovider --timeout=900 --continue-on-collection-errors --junitxml=$WT/_seeded/junit.xml dask_expr > _seeded/suite.log 2>&1
 /venv/bin/python - $WT/_seeded/junit.xml >> $OUT <<'PY'
 import json, sys, xml.etree.ElementTree as ET
